@@ -279,6 +279,9 @@ theorem resolveConstants_np (fl : Flags) (o : Orders) (exprs : AMap Ex) (ho : Or
         obtain ⟨_, _, h3⟩ := resolveLoop_all fl exprs order [] [] hnil
         rw [← h]
         obtain ⟨p, hp, rfl⟩ := List.mem_map.mp hk'
+        rw [← AMap.get?_isSome_iff_contains, canonConsts_get?,
+          (AMap.contains_iff_mem_keys exprs p.1).mpr (List.mem_map.mpr ⟨p, hp, rfl⟩), if_pos rfl,
+          AMap.get?_isSome_iff_contains]
         exact h3 p.1 ((hcover p.1).mpr (gkeys p hp))
       · simp at h
   · rw [hsc]
